@@ -3,14 +3,23 @@ import os, re, subprocess, time, shutil, json, fcntl
 from vlib import VERIF, REPO, WORK, gen_unit
 from props import KANI_GROUPS
 
-KTARGET = os.environ.get("SKA_KANI_TARGET", os.path.join(WORK, "kani-target"))
+# One Kani target directory PER scratch copy of the crate.  (Measured: two copies of the crate sharing a target
+# directory contaminate each other - cargo-kani reuses the other copy's artefacts, so a run reported a failure
+# that belonged to a different tree.  Never share a target directory between source copies.)
+KTARGET_ROOT = os.path.join(WORK, "kani-target")
+
+
+def ktarget_for(src):
+    return os.path.join(KTARGET_ROOT, os.path.basename(os.path.dirname(src.rstrip("/"))) + "-" + os.path.basename(src.rstrip("/")))
 MEM_KB = int(os.environ.get("SKA_KANI_MEM_KB", str(24 * 1024 * 1024)))
 
 
 def prepare_scratch(prop, groups):
     dst = os.path.join(WORK, "kani-src", prop)
     os.makedirs(dst, exist_ok=True)
-    subprocess.run(["rsync", "-a", "--delete", "--exclude", "target", "--exclude", ".git", REPO + "/", dst + "/"], check=True)
+    # content-based copy without preserving mtimes: a changed file always gets a fresh mtime, so cargo rebuilds it;
+    # an unchanged file is not touched, so the warm build stays valid
+    subprocess.run(["rsync", "-rlp", "--checksum", "--delete", "--exclude", "target", "--exclude", ".git", REPO + "/", dst + "/"], check=True)
     attached = []
     for g in groups:
         info = KANI_GROUPS[g]
@@ -109,19 +118,30 @@ def parse_output(out):
     return res
 
 
-def run_kani(src, harnesses, extra_args=None, timeout=3600, jobs=None):
-    cmd = ["cargo", "kani", "--output-format", "regular"]
+def module_path(group):
+    """fully qualified module of a harness group: derived from the file its `mod` line is appended to"""
+    info = KANI_GROUPS[group]
+    if "fragment_unit" in info:
+        return f"verif_kani_{group}"
+    rel = info["attach"]
+    assert rel.startswith("src/") and rel.endswith(".rs")
+    parts = rel[4:-3].split("/")
+    if parts[-1] in ("lib", "mod", "main"):
+        parts = parts[:-1]
+    return "::".join(parts + [f"verif_kani_{group}"])
+
+
+def run_kani(src, harnesses, extra_args=None, timeout=3600, jobs=None, group=None):
+    # --exact: Kani's default harness filter is a substring match (`nthash_new_k5` would also select ..._k51, _k53, ...)
+    cmd = ["cargo", "kani", "--output-format", "regular", "--exact"]
     for h in harnesses:
-        cmd += ["--harness", h]
+        cmd += ["--harness", (module_path(group) + "::" + h) if group else h]
     cmd += extra_args or []
-    env = dict(os.environ, CARGO_NET_OFFLINE="true", CARGO_TARGET_DIR=KTARGET)
-    os.makedirs(KTARGET, exist_ok=True)
+    ktarget = ktarget_for(src)
+    env = dict(os.environ, CARGO_NET_OFFLINE="true", CARGO_TARGET_DIR=ktarget)
+    os.makedirs(ktarget, exist_ok=True)
     shell = f"ulimit -v {MEM_KB}; exec " + " ".join("'" + c + "'" for c in cmd)
     t0 = time.time()
-    # cargo-kani keeps per-package artifacts in the target directory: two runs on different copies of the crate
-    # sharing one target directory overwrite each other's files, so runs are serialised with a lock
-    lockf = open(os.path.join(KTARGET, ".verif-lock"), "w")
-    fcntl.flock(lockf, fcntl.LOCK_EX)
     try:
         p = subprocess.run(["bash", "-c", shell], cwd=src, env=env, capture_output=True, text=True, timeout=timeout)
         out = p.stdout + "\n" + p.stderr
@@ -130,9 +150,6 @@ def run_kani(src, harnesses, extra_args=None, timeout=3600, jobs=None):
         out = (e.stdout or b"").decode("utf8", "replace") if isinstance(e.stdout, bytes) else (e.stdout or "")
         out += "\nTIMEOUT"
         rc = 124
-    finally:
-        fcntl.flock(lockf, fcntl.LOCK_UN)
-        lockf.close()
     return {"rc": rc, "out": out, "wall_s": time.time() - t0, "cmd": "CARGO_NET_OFFLINE=true " + " ".join(cmd)}
 
 
@@ -167,11 +184,13 @@ def run_groups(prop, cfg, tier):
         gsrc = src
         if "fragment_unit" in info:
             gsrc, err = prepare_fragment(prop, g)
+            if gsrc:
+                result.setdefault("frag_src", {})[g] = gsrc
             if not gsrc:
                 gres["error"] = err
                 result["groups"].append(gres)
                 continue
-        r = run_kani(gsrc, sel, extra_args=info.get("args"), timeout=info.get("timeout", 900 if tier == "quick" else 7200))
+        r = run_kani(gsrc, sel, extra_args=info.get("args"), timeout=info.get("timeout", 900 if tier == "quick" else 7200), group=g)
         gres["cmd"] = r["cmd"]
         gres["wall_s"] = round(r["wall_s"], 1)
         parsed = parse_output(r["out"])
@@ -184,18 +203,19 @@ def run_groups(prop, cfg, tier):
                                           "failed_checks": [], "checks": 0})
         result["groups"].append(gres)
     for b in bounded:
-        r = run_kani(src, [b["name"]], extra_args=b.get("args"), timeout=b.get("timeout", 3600))
+        r = run_kani(src, [b["name"]], extra_args=b.get("args"), timeout=b.get("timeout", 3600), group=b["group"])
         parsed = parse_output(r["out"])
         h = parsed.get(b["name"], {"name": b["name"], "status": "undecided", "failed_checks": [], "checks": 0,
                                    "reason": "no result: " + r["out"].strip()[-300:]})
         h["bound"] = b["bound"]
+        h["group"] = b["group"]
         h["time_s"] = round(r["wall_s"], 1)
         result["bounded"].append(h)
     return result
 
 
-def concrete_playback(src, harness, extra_args=None, timeout=1800):
+def concrete_playback(src, harness, extra_args=None, timeout=1800, group=None):
     """ask Kani for concrete values of a failing harness (printed as a unit test)"""
-    r = run_kani(src, [harness], extra_args=(extra_args or []) + ["-Z", "concrete-playback", "--concrete-playback=print"], timeout=timeout)
+    r = run_kani(src, [harness], extra_args=(extra_args or []) + ["-Z", "concrete-playback", "--concrete-playback=print"], timeout=timeout, group=group)
     m = re.search(r"Concrete playback unit test for `[^`]*`:\n```\n(.*?)```", r["out"], re.S)
     return m.group(1) if m else None
